@@ -1,5 +1,8 @@
 \* quick: ten groups, primitive quaternions in -2..2 (272 rational rotations per cell), hkl box -1..1 and
-\* eight hkl with entries up to 499 (the harness adds seeded ones; {1000+h, 11000+k, 21000+l} stands for (h,k,l))
+\* eight hkl with entries up to 499 (the harness adds seeded ones; {1000+h, 11000+k, 21000+l} stands for (h,k,l));
+\* every list of 1..2 columns over the four hkl of ListPool reduced as ONE array (mode l: (1,-2,3) and (-2,3,1) are one
+\* cubic orbit, (0,0,0) is a fixed point, (17,-17,499) sits at the end of the domain); ListSizes = the lengths the
+\* harness scales the emitted hkl to (list law ListColumnwise: per column, independent of the length)
 SPECIFICATION Spec
 CONSTANTS
   Names = {"cubic", "hexagonal", "trigonal", "rhombohedralP", "tetragonal", "orthorhombic", "monoclinic_c", "monoclinic_a", "monoclinic_b", "triclinic"}
@@ -9,6 +12,10 @@ CONSTANTS
   DoScan = TRUE
   TrigonalFixed = TRUE
   BigHkls = {{1499, 10501, 21499}, {501, 10501, 20501}, {1001, 11400, 20600}, {1000, 11499, 20502}, {999, 10700, 21499}, {1017, 10983, 21499}, {1250, 10750, 21251}, {1499, 11499, 21498}}
+  BlockSize = 0
+  ListMax = 2
+  ListPool = {{1001, 10998, 21003}, {998, 11003, 21001}, {1000, 11000, 21000}, {1017, 10983, 21499}}
+  ListSizes = {1, 2, 3, 255, 256, 257, 1023, 1025, 4097, 16385, 32769, 65535, 65536, 65537, 131089, 300000}
   ConcPairs = {}
   CoarseNames = {}
   Stride = 1
@@ -36,5 +43,8 @@ INVARIANT SameLattice
 INVARIANT HklCanonical
 INVARIANT HklLexMax
 INVARIANT HklNormKept
+INVARIANT ListColumnwise
+INVARIANT ListPositionFree
+INVARIANT ListIsMap
 INVARIANT Emit
 CHECK_DEADLOCK FALSE
